@@ -167,17 +167,23 @@ class MultiRun:
         # same postsynaptic spikes): the trainer's monitor pool may alias their monitors, and must do so only
         # where the monitors really are interchangeable
         self.shared = bool(hdrs[0].get("shared"))
+        # shared = "conn": the cells are ONE connection of a Biclique paired with SEVERAL neuron groups: the
+        # presynaptic-side monitors are the pooling candidates, and the cells accumulate into the one updater
+        self.oneconn = hdrs[0].get("shared") == "conn"
         if self.shared:
             dt = float(hdrs[0]["dt"])
             B = int(hdrs[0].get("B", 1))
             parts = [build_layer(h["conn"], dt, B, h.get("dmax")) for h in hdrs]
-            conns = [(f"c{j}", q.connection) for j, q in enumerate(parts)]
-            self.biclique = Biclique(conns, [("n", parts[0].neuron)])
+            if self.oneconn:
+                self.biclique = Biclique([("c", parts[0].connection)], [(f"n{j}", q.neuron) for j, q in enumerate(parts)])
+            else:
+                conns = [(f"c{j}", q.connection) for j, q in enumerate(parts)]
+                self.biclique = Biclique(conns, [("n", parts[0].neuron)])
             self._keep = parts
         for j, h in enumerate(hdrs):
             dt = float(h["dt"])
             if self.shared:
-                layer = _CellView(self.biclique, f"c{j}", "n")
+                layer = _CellView(self.biclique, "c", f"n{j}") if self.oneconn else _CellView(self.biclique, f"c{j}", "n")
             else:
                 layer = build_layer(h["conn"], dt, int(h.get("B", 1)), h.get("dmax"))
             layer.connection.weight = torch.zeros_like(layer.connection.weight)
@@ -197,6 +203,10 @@ class MultiRun:
         conn.delay = (torch.zeros_like(conn.delay) + d.to(conn.delay.dtype)).clone()
 
     def forward_layers(self, inputs):
+        if self.oneconn:
+            self.biclique({"c": (inputs[0][0],)},
+                          neuron_kwargs={f"n{j}": {"override": y} for j, (_, y) in enumerate(inputs)})
+            return
         if self.shared:
             self.biclique({f"c{j}": (x,) for j, (x, _) in enumerate(inputs)},
                           neuron_kwargs={"n": {"override": inputs[0][1]}})
